@@ -93,6 +93,19 @@ func C08Scenario() *Scenario {
 			}})
 		}
 		stages = append(stages, Stage{Name: "change", Policy: lagPolicyNoHold(t), Steps: 10 + 20*t.Pick(4, "gap"), Do: change})
+		if t.Pick(3, "midscale") == 2 {
+			// scaled down in the middle of the rollout (no new revision when replicas are not
+			// revisioned): with a hook that lists the highest ordinal first, the child that
+			// goes away is one that has already been moved
+			w.Cfg["scaledDownMidRollout"] = "true"
+			stages = append(stages, Stage{Name: "scale-mid-rollout", Policy: fair, Steps: 5 + 10*t.Pick(4, "gap3"), Do: func(w *World) {
+				EditObject(w, p.Res, p.NS, p.Name, "user", func(o Object) {
+					if n := getInt(o, "spec", "replicas"); n > 1 {
+						setPath(o, n-1, "spec", "replicas")
+					}
+				})
+			}})
+		}
 		if secondChange {
 			stages = append(stages, Stage{Name: "change2", Policy: fair, Steps: 5 + 10*t.Pick(4, "gap2"), Do: change})
 		}
